@@ -589,6 +589,83 @@ def run_rendered(st: Stats, special):
         r.cleanup()
 
 
+HOSTED = ["s1a", "b1a", "f1a", "s1", "b1", "f1"]
+HOSTED_SRC = """module m
+  implicit none
+  private
+  public :: t1, gi
+  type :: t1
+    integer :: c1
+  contains
+    procedure :: b1
+    final :: f1
+  end type t1
+  interface gi
+    module procedure s1
+  end interface gi
+contains
+  subroutine s1(a1)
+{s1}
+    integer, intent(in) :: a1
+{s1a}
+  end subroutine s1
+  subroutine b1(self)
+{b1}
+    class(t1) :: self
+{b1a}
+  end subroutine b1
+  subroutine f1(self)
+{f1}
+    type(t1) :: self
+{f1a}
+  end subroutine f1
+end module m
+"""
+
+
+def run_hosted(st: Stats, case):
+    """private procedures that have no page of their own but are shown on another entity's page (specific procedure of a
+    public generic interface, procedure behind a public binding, final procedure): when any word of the comment of such a
+    procedure or of its dummy argument is rendered, the whole comment is rendered, in order, on one page of the site."""
+    from mc.site import Site
+
+    special, display = case
+    docs = {}
+    for k in HOSTED:
+        w = rwords(k)
+        doc = [f"{w[0]} {w[1]}", "", f"{w[2]} {w[3]}"] + (["", f"- {w[4]}", f"- {w[5]}"] if k == special else [])
+        docs[k] = "\n".join(f"    !! {l}".rstrip() for l in doc)
+    src = HOSTED_SRC.format(**docs)
+    r = fordrun.build({"src/m.f90": src}, dict(display=display, incl_src=False), stage="write")
+    st.evaluations += 1
+    stratum = "rendered-hosted"
+    inp = dict(special=special, display=display, source=src, hosted=True)
+    st.nontrivial.add(core.digest(["hosted", special, display]))
+    try:
+        if r.error is not None or r.stage_reached != "write":
+            st.violation("ford-failed", stratum, dict(entity=special), inp, repr(r.error) + r.log[-300:], "site is written")
+            st.stratum(stratum, 1)
+            return
+        site = Site(r.out)
+        bad = 0
+        for k in HOSTED:
+            st.transitions += 1
+            want = rwords(k)[: 6 if k == special else 4]
+            shown = {name: re.findall(rf"\bzq{k}[a-g]\b", page.text) for name, page in site.pages.items()}
+            shown = {n: g for n, g in shown.items() if g}
+            if not shown:
+                continue  # not rendered at all: nothing is claimed for an entity that is not displayed
+            whole = [n for n, g in shown.items() if (lambda it: all(any(x == w for x in it) for w in want))(iter(g))]
+            if not whole:
+                bad += 1
+                st.violation("rendered-doc-incomplete", stratum, dict(entity=k, special=special, is_special=(k == special), display=",".join(display)), inp,
+                             {n: g for n, g in sorted(shown.items())[:4]}, want)
+        st.states.add(core.digest([special, display, bad]))
+        st.stratum(stratum, bad)
+    finally:
+        r.cleanup()
+
+
 def _shares_page(project, key, special, url):
     """the special entity is legitimately shown on this page too (it lives on it or is summarised there)"""
     ents = find_entity(project, special)
@@ -641,6 +718,9 @@ def gen_cases(tier):
                 yield ("firstblock", (key, kind, meta_first))
     for key in RENDER_KEYS:
         yield ("rendered", key)
+    for key in HOSTED:
+        for display in (["public", "protected"], ["public"], ["public", "private", "protected"]):
+            yield ("hosted", (key, display))
 
 
 def work(chunk):
@@ -654,6 +734,8 @@ def work(chunk):
             run_firstblock(st, case)
         elif kind == "rendered":
             run_rendered(st, case)
+        elif kind == "hosted":
+            run_hosted(st, case)
         else:
             run_meta(st, case)
     return st
@@ -669,6 +751,9 @@ def replay(path):
     if "blocks" in i:
         run_body(st, tuple(i["blocks"]))
         print(i["text"])
+    elif i.get("hosted"):
+        run_hosted(st, (i["special"], i["display"]))
+        print(i["source"])
     elif i.get("rendered"):
         run_rendered(st, i["special"])
         print(i["source"])
